@@ -10,7 +10,7 @@ LEVEL = 'proof'
 THEOREMS = [('DebInspector.Thm.C19', ['Props.C19.refines_dict', 'Props.C19.conventional_idem_table', 'Props.C19.depsFields_eq_policy',
                                       'Props.C19.specialCases_eq', 'Props.C19.normalize_eq_conventional', 'Props.C19.sound', 'Props.C19.soundT',
                                       'Props.C19.conventional_idem', 'Props.C19.conventional_lower', 'Props.C19.conventional_upper', 'Props.C19.parseControlItems_ok']),
-            ('DebInspector.Thm.C19M', ['Props.C19M.soundM', 'Props.C19M.first_addr', 'Props.C19M.phrase_words', 'Props.C19M.local_loop',
+            ('DebInspector.Thm.C19M', ['Props.C19M.soundM', 'Props.C19M.first_addr', 'Props.C19M.first_addr_local', 'Props.C19M.first_addr_of', 'Props.C19M.maintainer_of', 'Props.C19M.addrspec_full', 'Props.C19M.addrspec_local', 'Props.C19M.phrase_words', 'Props.C19M.local_loop',
                                        'Props.C19M.domain_run', 'Props.C19M.wf_parts'])]
 TRUSTED = [
     'Lean 4.33.0 kernel',
@@ -20,7 +20,7 @@ TRUSTED = [
     'the text / file-object construction routes are observed against get_paragraph_data directly (two API routes compared on the implementation)',
     'translator harness/translate.py and this correspondence harness',
 ]
-ASSUMPTIONS = ['keys are ASCII strings', 'maintainer: single-spaced atoms-and-dots name, dot-atom address']
+ASSUMPTIONS = ['keys are ASCII strings', 'maintainer: single-spaced atoms-and-dots name; address a dot-atom, with or without @ and a dot-atom domain']
 RULE = ('histories of <= 12 operations over 3 keys x 4 casings (all histories of <= 3 operations exhaustively) from every construction route; '
         'control paragraphs mixing relationship fields, Installed-Size and others in any ASCII case; maintainer names/addresses inside and outside the grammar. '
         'non-trivial = the history uses two casings of one key')
@@ -33,7 +33,7 @@ LEVEL_TEXT = ('Props.C19.refines_dict: for every construction route, every finit
               'Props.C19.soundT: for every control paragraph whose normalised names are distinct, whenever the model of parse_control_fields returns it returns one entry per field, in order, under the conventional capitalisation of its name - '
               'idempotent and independent of the case of the input for every name, not only the policy names (conventional_idem, conventional_lower, conventional_upper: by the ASCII case-map table and induction over the hyphen-separated words) - '
               'holding the parsed relationship for the policy relationship fields, the integer for Installed-Size and the raw string for every other field (parseControlItems_ok). '
-              'Props.C19M.soundM: for every name of single-spaced words of atom characters and dots and every dot-atom address with one @, the model of MaintainerField.from_value("name <address>") - strip, the model of email.utils.parseaddr '
+              'Props.C19M.soundM: for every name of single-spaced words of atom characters and dots and every address that is a dot-atom or two dot-atoms around one @, the model of MaintainerField.from_value("name <address>") - strip, the model of email.utils.parseaddr '
               '(phrase list, route address, addr-spec loop, domain), then dumps() - returns exactly that name, that address and the unchanged text (first_addr: the address parser returns (name, address) on that grammar, by induction over the words, the local atoms and the domain atoms). '
               'The model of parseaddr is tied to CPython by correspondence on adversarial strings over the parser\'s special characters (comments, quotes, routes, domain literals, stray @ and dots); address groups are outside the model. '
               'The text/file construction routes are decided by the executable specification on every implementation observation and by correspondence.')
@@ -255,7 +255,7 @@ ADDR_ALPHABET = ['a', 'B', '1', ' ', ' ', '.', '@', '<', '>', '(', ')', '"', ','
 def maint(rng):
     names = ['John Doe', 'J. R. Hacker', 'a', 'Debian QA Group', "O'Neil", 'x_y z', 'John  Doe', 'John (c)', 'J, D', 'Jöhn', '', ' a', 'a ',
              '"Doe, John"', 'a (c) b', '(c)', 'x@y', 'a.b', 'a:b;', 'Group: a@b;', '\\"q', 'a\\(b']
-    addrs = ['j@x.org', 'a.b@c.d.e', 'packages@qa.debian.org', 'a@b', 'a', 'a b@c', 'a@b@c', '.a@b', 'a@b.', '@r:a@b', '"q"@x', 'a@[1.2]', '', '(c)a@b', 'a@b(c)',
+    addrs = ['j@x.org', 'a.b@c.d.e', 'buildd', 'root.admin', 'lp+bugs', 'packages@qa.debian.org', 'a@b', 'a', 'a b@c', 'a@b@c', '.a@b', 'a@b.', '@r:a@b', '"q"@x', 'a@[1.2]', '', '(c)a@b', 'a@b(c)',
              'a@b>x', 'a(b(c)d)@e', '"a\\"b"@c']
     r = rng.random()
     if r < 0.5:
